@@ -564,3 +564,10 @@ def r12(rr, repo):
 def r13(rr, repo):
     from .c03 import r3 as c03r3
     c03r3(rr, repo)
+
+
+@rule('C09.R14', "the same topics come out: the name the receiver reads off a message's first frame is the inverse of the framing the publisher put around it (exactly one leading delimiter - none for a hidden name - and "
+                 "exactly one trailing delimiter are removed, nothing of the name itself), for hidden, normal and control frames (shares C02.R5)")
+def r14(rr, repo):
+    from .c02 import r5 as c02r5
+    c02r5(rr, repo)
